@@ -34,7 +34,14 @@ PROP = dict(
     ],
     spec=True,
     timeout=900,
-    rule="op = (data path, write size n, source granularity cap, EOF style); n swept over 0,1,2,100,4095..4097, every boundary "
+    rule="engine c07b (added after two seeded bugs were missed): fw/wf/conn drive protocol.FrameWriter.Write, WriteFrame and peer.Manager.SendToPeer->Connection.WriteFrame "
+         "with payloads 0..1 MiB around 16383/16384/16385 and require an error or bytes the real FrameReader accepts with payload <= 16384; msg drives the "
+         "senders that put ONE sealed/encoded message into a frame without chunking (forwardShellClientData with a non-STDIN message, SendControlRequestWithData, "
+         "sendControlResponse) with 0..200000-byte messages and requires no frame > limit on the wire; stall pushes the frames of a 0.16-16 MB transfer from a "
+         "goroutine through the REAL Agent.handleStreamData -> stream.Manager.HandleStreamData -> Stream.PushData into a stream of the agent's stream manager while "
+         "the application (meshConn.Read) stalls 0-7 s with up to 1000 frames in flight (one 3 s stall with 199 frames in quick) and requires the bytes read to equal "
+         "the bytes sent. Engine c07: "
+         "op = (data path, write size n, source granularity cap, EOF style); n swept over 0,1,2,100,4095..4097, every boundary "
          "MaxPayloadSize-100-28+-1, MaxPayloadSize-28-2..+1, MaxPayloadSize-1..+1, +28, +29, 2x and 3x multiples, 64 KiB, 100000, 1 MiB "
          "(thorough: random sizes, 40 writes of 1-4 MiB, 4 MiB on every path); cap in {unlimited,1000,4096,16355,16356,16357,16384,32768,random}; "
          "each op runs the path's REAL sender (meshConn.Write, exit/forward readLoop, shell pumpStdout/pumpStderr/pumpPTYOutput, "
